@@ -35,7 +35,13 @@ RULE = ("indices: every index below the tier bound (quick 4096, thorough 262144)
         "Rosenberg-Strong pairing drained to exhaustion; "
         "StatesManager call histories: seeded random histories with skips and max_logged resets, never-skipping and non-decreasing "
         "histories, the Lean negation witnesses; object reuse: one pairing object shared by two managers on two grid objects, "
-        "drained interleaved, plus a deep copy taken half-way. "
+        "drained interleaved, plus a deep copy taken half-way; several objects of ONE configuration in one process (c14.z1d_twins, "
+        "c14.sm_twins, generated before any other PairingToZ1d exists, every scenario on an interval no earlier object of the run mapped): "
+        "2..6 PairingToZ1d objects with identical (left, right, omit_zero), resp. StatesManagers on equal 1-d grids (own grid / pairing / "
+        "Domain each, built directly or by create_sampling_inversion_method), short side 1..12, long side short+1..30 or +100..600, "
+        "symmetric controls; earlier objects asked 0..depth-1 with depth = 0 / before / exactly at / 1-2 past / well past the switch "
+        "index 2*min(L,R) / everything, later ones to seeded random depths and the last one to the end; built-and-driven one after the "
+        "other, all built first, or asked round robin; always increasing order per object; each object judged on its own answers. "
         "non-trivial = index >= 2 / at least two states; distinct = distinct (probe, pairing, d, block or shape)")
 NOT_PROVED = ["HyperbolicPairing: bijectivity N <-> N^2 (and N^d, Z^d through the base-class fold) IS proved for the model "
               "(pair_proj_hyperbolic, proj_pair_hyperbolic, hyperbolic_ndBij) in which a_n is the closed form as coded (proved equal to the "
@@ -54,7 +60,10 @@ NOT_PROVED = ["HyperbolicPairing: bijectivity N <-> N^2 (and N^d, Z^d through th
               "finding C14-rs-frontier-bound now fixed). Not proved: domains with a boundary other than Boundary() (max_inside_index then "
               "ranges over the inside states only; the model has no boundary)",
               "the @cache of PairingToZ1d.project is modelled as a memo of the first answer per index that is never evicted "
-              "(theorem z1d_memo_stable: a repeated ask returns the first answer for every history); functools itself is trusted",
+              "(theorem z1d_memo_stable: a repeated ask returns the first answer for every history); functools itself is trusted. "
+              "M has ONE memo and ONE switch state per object: that objects of equal configuration living in one process do not "
+              "share either (the cache key is the object's identity) is not a statement of M; it is oracle-checked per object on "
+              "multi-object histories (c14.z1d_twins, c14.sm_twins) and each object is compared with M's single-object run",
               "StatesManager for arbitrary call histories: proved for every history without max_logged reset: no index twice, returned "
               "indices strictly increasing, sticky exhaustion (sm_history_invariant, sm_history_at_most_once, sm_history_exhaustion_sticky); "
               "histories with x_k <= k (the sampler's use; all non-decreasing histories without jumps) answer exactly like 0,1,2,... so "
@@ -557,6 +566,187 @@ def probe_z1d_order(ctx, inp):
                                         "in_increasing_order": want[k], "all": impl}, cls=cls, mirrors_model=mirrors and pure == ordered)
 
 
+def z1d_switch_index(L, R, omit):
+    """first index whose state lies beyond the shorter side (the object's one-way switch happens there); none if L == R"""
+    n = L + R + (0 if omit else 1)
+    return n if L == R else 2 * min(L, R) + (0 if omit else 1)
+
+
+def twin_depths(rng, n, s, after=0):
+    """depths (= number of indices 0..depth-1 asked, in increasing order) for several objects of ONE configuration living in
+    one process: earlier objects stop never used / before / exactly at / just after / well after the switch index s / at the
+    end n, later ones go anywhere up to the end, the last one to the end (+ `after` calls for a manager's exhaustion signal)"""
+    def one(reg):
+        if reg == "unused":
+            return 0
+        if reg == "before":
+            return rng.randint(1, max(1, s))
+        if reg == "at":
+            return s + 1
+        if reg == "just_after":
+            return s + rng.randint(2, 3)
+        if reg == "well_after":
+            return rng.randint(min(n, s + 2), n)
+        return n + after
+    early = [min(n + after, one(rng.choice(["unused", "before", "before", "at", "just_after", "just_after", "well_after", "well_after",
+                                              "well_after", "full"]))) for _ in range(rng.randint(1, 3))]
+    late = [rng.randint(0, n + after) for _ in range(rng.randint(0, 2))] + [n + after]
+    return early + late
+
+
+def twin_schedule(depths, mode):
+    """order in which (object, index) are asked: every object sees its own indices 0,1,2,... in increasing order.
+    sequential / prebuilt: one object after the other; interleaved: round robin, an object drops out at its depth"""
+    if mode == "interleaved":
+        return [(j, k) for k in range(max(depths, default=0)) for j, dj in enumerate(depths) if k < dj]
+    return [(j, k) for j, dj in enumerate(depths) for k in range(dj)]
+
+
+def probe_z1d_twins(ctx, inp):
+    """several PairingToZ1d objects with IDENTICAL (left, right, omit_zero) alive in one process, each asked the indices
+    0..depth-1 in increasing order (mode: 'sequential' = built and driven one after the other, 'prebuilt' = all built first,
+    'interleaved' = all built first and asked round robin).  S, judged per object whatever the other objects did: the
+    states it returned are in-interval, non-zero when zero is omitted, pairwise different (so after all L+R(+1) indices:
+    every state exactly once) and pair(project(k)) == k for every k it was asked; a fully driven object also satisfies
+    project(pair(v)) == v.  C: every object's answers are the pure enumeration of M (z1d)."""
+    probe = "c14.z1d_twins"
+    L, R, omit, depths, mode = inp["L"], inp["R"], inp["omit"], [int(x) for x in inp["depths"]], inp.get("mode", "sequential")
+    o = 1 if omit else 0
+    n = L + R + 1 - o
+    s = z1d_switch_index(L, R, omit)
+    cls = dict(symmetric=(L == R), history_increasing=True, objects=len(depths))
+    deepest_early = max(depths[:-1], default=0)
+    reach = "none" if L == R else ("before" if deepest_early <= s else ("at" if deepest_early == s + 1 else ("full" if deepest_early >= n else "after")))
+    ctx.count(probe, inp, nontrivial=len(depths) >= 2 and n >= 2, branch=f"{mode}:earlier_stop_{reach}_switch")
+    ctx.evaluations += sum(depths) - 1
+    if any(dj > n for dj in depths):
+        ctx.fail("corr", probe + ".model", inp, {"name": "harness: depth beyond the number of states of the interval"}, cls=cls)
+        return
+    objs = [None] * len(depths)
+    if mode != "sequential":
+        objs = [PairingToZ1d((-L, R), omit_zero=omit) for _ in depths]
+    seqs, backs = [[] for _ in depths], [[] for _ in depths]
+    try:
+        for j, k in twin_schedule(depths, mode):
+            if objs[j] is None:
+                objs[j] = PairingToZ1d((-L, R), omit_zero=omit)
+            v = int(objs[j].project(k))
+            seqs[j].append(v)
+            backs[j].append(int(objs[j].pair(v)))
+    except Exception as e:  # noqa
+        ctx.fail("oracle", probe, dict(inp, object=j, index=k), {"what": "project / pair raised", "exception": repr(e)}, cls=cls)
+        return
+    want = interval_states(L, R, omit)
+    for j, (seq, back) in enumerate(zip(seqs, backs)):
+        what = k_bad = None
+        seen = {}
+        for k, v in enumerate(seq):
+            if not (-L <= v <= R) or (omit and v == 0):
+                what = "project(k) is not a non-zero state of the interval" if omit else "project(k) is not a state of the interval"
+            elif v in seen:
+                what = f"project(k) repeats the state already returned for index {seen[v]} by the same object"
+            elif back[k] != k:
+                what = "pair(project(k)) != k"
+            if what:
+                k_bad = k
+                break
+            seen[v] = k
+        if what is None and len(seq) == n and sorted(seq) != want:
+            what, k_bad = "all indices asked but not every state of the interval returned", n - 1
+        if what is None and len(seq) == n:
+            try:
+                again = [int(objs[j].project(int(objs[j].pair(v)))) for v in want]
+            except Exception as e:  # noqa
+                again = repr(e)
+            if again != want:
+                what, k_bad = "project(pair(v)) != v on a fully enumerated object", None
+        if what:
+            ctx.fail("oracle", probe, dict(inp, object=j, index=k_bad),
+                     {"what": what, "object": j, "object_depth": depths[j], "depths_of_the_objects_before_it": depths[:j],
+                      "index": k_bad, "state": seq[k_bad] if k_bad is not None else None,
+                      "pair_of_state": back[k_bad] if k_bad is not None else None, "returned_by_this_object": seq[:60],
+                      "missing_states": sorted(set(want) - set(seq))[:10] if len(seq) == n else None}, cls=cls)
+            return
+    model = il(ctx.lean(f"z1d {L} {R} {o} {max(depths)}")) if max(depths) > 0 else []
+    for j, seq in enumerate(seqs):
+        if seq != model[: len(seq)]:
+            ctx.fail("corr", probe + ".model", dict(inp, object=j), {"name": "Drivers/C14 z1d vs PairingToZ1d.project of one of several equal objects",
+                                                                     "impl": seq[:60], "model": model[: len(seq)][:60]}, cls=cls)
+            return
+
+
+def probe_sm_twins(ctx, inp):
+    """several StatesManagers on EQUAL 1-d grids (own grid, own PairingToZ1d of the same interval, own Domain each) alive in one
+    process, manager j asked x = 0..depth_j-1 in increasing order (modes as in c14.z1d_twins; via = 'direct' or 'factory' =
+    through create_sampling_inversion_method, whose constructor already asks x = 0).  S per manager, whatever the others did:
+    before exhaustion only in-grid non-origin states, none twice; exhaustion at call L+R and not earlier, nothing returned
+    after it.  C: every manager answers like M (sm1d)."""
+    probe = "c14.sm_twins"
+    L, R, depths, mode, via = inp["L"], inp["R"], [int(x) for x in inp["depths"]], inp.get("mode", "sequential"), inp.get("via", "direct")
+    n = L + R
+    s = z1d_switch_index(L, R, True)
+    cls = dict(source=via, symmetric=(L == R), managers=len(depths))
+    deepest_early = max(depths[:-1], default=0)
+    reach = "none" if L == R else ("before" if deepest_early <= s else ("at" if deepest_early == s + 1 else ("full" if deepest_early >= n else "after")))
+    ctx.count(probe, inp, nontrivial=len(depths) >= 2 and n >= 2, branch=f"{via}:{mode}:earlier_stop_{reach}_switch")
+    ctx.evaluations += sum(depths) - 1
+
+    def build():
+        axis = np.array([float(k) for k in range(-L, R + 1)])
+        g = zoo.CTMCGrid(h=1.0, origin_coordinate=L, axes=[axis])
+        if via == "factory":
+            inv = create_sampling_inversion_method(g, zoo.make_levy("hem", {}), 1.0, False)
+            return inv.state_manager, as_state(inv._simulated_state_increments[0], 1)
+        p = PairingToZ1d((-L, R), omit_zero=True)
+        return StatesManager(pairing=p, domain=Domain(boundary=Boundary(), grid=g, pairing=p), grid=g), None
+
+    sms = [None] * len(depths)
+    outs = [[] for _ in depths]
+    j = k = None
+    try:
+        if mode != "sequential":
+            sms = [build() for _ in depths]
+        for j, k in twin_schedule(depths, mode):
+            if sms[j] is None:
+                sms[j] = build()
+            outs[j] += run_manager(sms[j][0], 1, [k], -1, first=sms[j][1])[0]
+    except Exception as e:  # noqa
+        ctx.fail("oracle", probe, dict(inp, object=j, index=k), {"what": "building / asking a StatesManager raised", "exception": repr(e)}, cls=cls)
+        return
+    states = set(box_states(L, [L + R + 1]))
+    for j, out in enumerate(outs):
+        what = k_bad = None
+        seen = {}
+        for k, st in enumerate(out):
+            if st is None:
+                if k < n:
+                    what = "exhaustion signalled before every in-grid non-origin state was returned"
+            elif k >= n or None in out[:k]:
+                what = "a state is returned although every in-grid state was already returned / after exhaustion was signalled"
+            elif st not in states:
+                what = "a returned state is outside the grid or is the origin"
+            elif st in seen:
+                what = f"the state returned at call {seen[st]} is returned again by the same manager"
+            if what:
+                k_bad = k
+                break
+            seen[st] = k
+        if what:
+            ctx.fail("oracle", probe, dict(inp, object=j, index=k_bad),
+                     {"what": what, "manager": j, "manager_calls": depths[j], "calls_of_the_managers_before_it": depths[:j], "call": k_bad,
+                      "answer": repr(out[k_bad]), "returned_by_this_manager": repr(out[:60]),
+                      "missing_states": sorted(states - set(out))[:10] if len(out) >= n else None}, cls=cls)
+            return
+    for j, out in enumerate(outs):
+        if not out:
+            continue
+        m_outs, _, _ = parse_sm(ctx.lean(f"sm1d {L} {R} -1 {wi(range(len(out)))}"))
+        if m_outs != out:
+            ctx.fail("corr", probe + ".model", dict(inp, object=j), {"name": "Drivers/C14 sm1d vs one of several StatesManagers on equal grids",
+                                                                     "impl": repr(out)[:300], "model": repr(m_outs)[:300]}, cls=cls)
+            return
+
+
 # ------------------------------------------------------------------------------------------- probes: lazy product
 def probe_lazy(ctx, inp):
     sizes = inp["sizes"]
@@ -934,7 +1124,8 @@ PROBES = {"c14.proj_block": probe_proj_block, "c14.pair_tuples": probe_pair_tupl
           "c14.z1d_increasing": probe_z1d_increasing, "c14.z1d_order": probe_z1d_order, "c14.z1d_stable": probe_z1d_stable,
           "c14.sm_frontier_after_exhaustion": probe_sm_frontier_after_exhaustion, "c14.lazy": probe_lazy,
           "c14.sm_1d": probe_sm_1d, "c14.sm_box": probe_sm_box, "c14.sm_history": probe_sm_history,
-          "c14.hyperbolic_nd": probe_hyperbolic_nd, "c14.sm_shared": probe_sm_shared, "c14.sm_factory_nd": probe_sm_factory_nd}
+          "c14.hyperbolic_nd": probe_hyperbolic_nd, "c14.sm_shared": probe_sm_shared, "c14.sm_factory_nd": probe_sm_factory_nd,
+          "c14.z1d_twins": probe_z1d_twins, "c14.sm_twins": probe_sm_twins}
 
 
 # ------------------------------------------------------------------------------------------- generators
@@ -954,6 +1145,36 @@ def directed_centres(rng, per_binade):
     for k in range(2, 129, 3):
         out.append(("pow2", 2 ** k))
     return out
+
+
+def twin_scenarios(ctx, rng):
+    used = set()
+
+    def fresh_interval(sym_ok=True):
+        for _ in range(50):
+            r = rng.random()
+            if r < 0.08 and sym_ok:
+                L = R = rng.randint(13, 40)                       # control: no switch at all
+            else:
+                short = rng.randint(1, 12)
+                long = short + (rng.randint(1, 30) if r < 0.9 else rng.randint(100, 600))
+                L, R = (short, long) if rng.random() < 0.5 else (long, short)
+            if (L, R) not in used and not (L <= 12 and R <= 12):
+                break
+        used.add((L, R))
+        return L, R
+
+    for _ in range(ctx.n(150, 1500)):
+        L, R = fresh_interval()
+        for omit in ((True, False) if rng.random() < 0.3 else (rng.random() < 0.7,)):
+            n = L + R + (0 if omit else 1)
+            probe_z1d_twins(ctx, dict(L=L, R=R, omit=omit, depths=twin_depths(rng, n, z1d_switch_index(L, R, omit)),
+                                      mode=rng.choice(["sequential", "sequential", "prebuilt", "interleaved"])))
+    for _ in range(ctx.n(100, 1000)):
+        L, R = fresh_interval()
+        probe_sm_twins(ctx, dict(L=L, R=R, depths=twin_depths(rng, L + R, z1d_switch_index(L, R, True), after=3),
+                                 mode=rng.choice(["sequential", "sequential", "prebuilt", "interleaved"]),
+                                 via=rng.choice(["direct", "direct", "factory"])))
 
 
 def run(ctx):
@@ -1010,6 +1231,9 @@ def run(ctx):
             if c >= 4:
                 probe_zd_block(ctx, dict(kind=kind, d=d, start=c - 4, count=7, why=why))
     # 5. the interval [-L, R]
+    # 5a. several objects of one configuration in one process (before anything else builds a PairingToZ1d: every scenario is a
+    #     history of the whole process, so each one gets a configuration that no earlier object of this run has mapped)
+    twin_scenarios(ctx, random.Random(f"c14-twins-{ctx.seed}"))      # own stream: the later generators keep theirs
     for L in range(1, 13):
         for R in range(1, 13):
             for omit in (True, False):
@@ -1186,7 +1410,7 @@ def replay(ctx, rec):
         inp["tuples"] = [[int(c) for c in t] for t in inp["tuples"]]
     if probe == "c14.fold":
         inp["values"] = [int(v) for v in inp["values"]]
-    for k in ("index", "state", "tuple"):
+    for k in ("index", "state", "tuple", "object"):
         inp.pop(k, None)
     fn(ctx, inp)
 
